@@ -39,6 +39,12 @@ func (l localOptimizer) run(method localMethod, gradThresh float64, operation ch
 		l.finish(operation, result)
 		return NotTerminated, nil
 	}
+	if status != NotTerminated {
+		// The gradient at the starting location is already below the
+		// threshold of the method.
+		l.finishMethodDone(operation, result, task)
+		return status, nil
+	}
 	op, err := method.initLocal(task.Location)
 	if err != nil {
 		l.finishMethodDone(operation, result, task)
